@@ -517,3 +517,8 @@ MUTANTS = [
 # SESSION7 additions to the claim (clauses added in DESIGN section 12)
 CLAIM['technique'] += '; fixed-size array extents and size pairs in the download units'
 CLAIM['text'] += " C17-f/g: the callbacks' fixed-size scratch arrays and carried-over buffers are accessed within their extents."
+
+
+# SESSION7b additions to the claim (round 8, DESIGN 12.6)
+CLAIM['technique'] += '; log.c arrays'
+CLAIM['text'] += ''
